@@ -42,7 +42,7 @@ BUDGETS = {'C06': (45, 900, 10)}
 LEVELS = {'C06': 'fault_enumeration'}
 PROBES = {'C06': ['numbered_files', 'failed_rollover_before_the_append', 'restart_with_journal_of_meta_file', 'first_record_of_file', 'compressed', 'uncompressed', 'multi_write_append', 'error_at_journal', 'error_at_archive_open',
                   'error_at_archive_write', 'error_at_archive_close', 'error_at_unlink', 'torn_error', 'short_write',
-                  'kill_points', 'kill_torn_points', 'kill_with_journal', 'restart_refused', 'real_kill_crosscheck', 'archive_name_with_glob_characters', 'second_run_close', 'fresh_start_over_existing_archive']}
+                  'kill_points', 'kill_torn_points', 'kill_with_journal', 'restart_refused', 'real_kill_crosscheck', 'archive_name_with_glob_characters', 'second_run_close', 'fresh_start_over_existing_archive', 'kill_while_undoing_a_failed_append']}
 INFO = {'C06': {
     'rule': 'workload = (compression, 0..5 earlier records, record to append with block of 0..40000 bytes); per workload '
             'EVERY file operation of the append is a fault position for the I/O-error clause and every operation '
@@ -508,6 +508,24 @@ def run(tape, prop, tier):
                 r.violate(P, 'harness-kill-model', 'snapshot-differs-from-real-kill', 'op %d %s: files differing %r (real %r, model %r)'
                           % (k, kind, diff, {n: len(real.get(n, b'')) for n in diff}, {n: len(snap.get(n, b'')) for n in diff}))
 
+        def recoverable(snap):
+            """kill clause: a valid old/new archive, or a journal naming the pre-append length under which the old archive lies"""
+            data = snap.get(arch_name, b'')
+            okv, _, errsv = valid_sequence(data, compress)
+            if okv and (data == A0 or is_new(data)):
+                return None
+            jn = snap.get(journal_name)
+            if jn is None:
+                return 'archive is %s and no journal exists' % ('neither the old nor the new record sequence' if okv else 'not a record sequence %r' % (errsv[:1],))
+            try:
+                lines = jn.decode('ascii').split('\n')
+                off = int(lines[1][7:]) if lines[0] == 'wpull-journal-version:1' and lines[1].startswith('offset:') else None
+            except Exception:
+                off = None
+            if off != len(A0) or data[:off] != A0:
+                return 'journal offset %r does not lead back to the old archive (%d bytes)' % (off, len(A0))
+            return None
+
         # ---- I/O-error clause (enumerated)
         for k, kind, name, n in oplog:
             variants = [('error', errno.ENOSPC if k % 2 else errno.EIO)]
@@ -515,7 +533,21 @@ def run(tape, prop, tier):
                 variants.append(('torn-error', n // 2, errno.ENOSPC))
                 variants.append(('short', max(1, n // 3)))
             for act in variants:
-                f, err = attempt(plan={k: act})
+                # the process may also die while the failed append is being undone: snapshots at every operation after the
+                # injected error are judged by the kill clause (the journal must outlive the damage it describes)
+                after_fault = []
+
+                def obs_after(kk, kind2, path2, data2, k=k):
+                    if kk > k:
+                        after_fault.append((kk, kind2, os.path.basename(path2), simfs.snapshot_dir(sandbox)))
+                f, err = attempt(plan={k: act}, observer=obs_after if act[0] != 'short' else None)
+                for kk, kind2, name2, snap2 in after_fault:
+                    why = recoverable(snap2)
+                    r.probes['kill_while_undoing_a_failed_append'] += 1
+                    if why:
+                        r.violate(P, 'kill-unrecoverable', 'after-io-error:%s:%s' % (kind2, 'JOURNAL' if name2 == journal_name else ('ARCH' if name2 == arch_name else 'other')),
+                                  'I/O error at op%d (%s:%s %s), then the process dies before op%d (%s:%s): %s' % (k, kind, name, act[0], kk, kind2, name2, why))
+                        break
                 after = simfs.snapshot_dir(sandbox)
                 data = after.get(arch_name, b'')
                 where = 'JOURNAL' if name == journal_name else ('ARCH' if name == arch_name else name)
